@@ -69,6 +69,11 @@ def collect(c):
 
 
 def queue_design(c, th):
+    if th:  # the long runs first
+        design(c, "DNSCheck", "DNSCheck_mc_big.cfg", timeout=2400, name="4 operations, 5 s")
+        design(c, "DNSCheck", "DNSCheck_conc_mc_big.cfg", timeout=2400, name="two-step Check, 3 operations, 4 s")
+        design(c, "DNSCheck", "DNSCheck_table_mc_big.cfg", timeout=1800, name="every name up to 6 characters")
+        design(c, "RemoteKV", "RemoteKV_mc_big.cfg", timeout=1800, name="LRU(1..3), 7 operations")
     design(c, "RemoteKV", "RemoteKV_mc.cfg", name="3 namespaces x 2 keys, map / LRU(1,2) / empty store, 5 operations")
     design(c, "RemoteKV", "RemoteKV_sanity_prefix.cfg", expect_violation="NamespaceIsolation",
            name="sanity: Get does not apply the namespace prefix")
@@ -76,8 +81,6 @@ def queue_design(c, th):
            name="sanity: keys may contain the separator of nested prefixes")
     design(c, "RemoteKV", "RemoteKV_sanity_lru.cfg", expect_violation="LRUExact",
            name="sanity: a hit does not refresh the entry's recency")
-    if th:
-        design(c, "RemoteKV", "RemoteKV_mc_big.cfg", timeout=1800, name="LRU(1..3), 7 operations")
     design(c, "DNSCheck", "DNSCheck_table_mc.cfg", name="every name up to 5 characters over {a B - . _ c} x {A, AAAA, other}, "
              "domains c and c.c")
     design(c, "DNSCheck", "DNSCheck_mc.cfg", name="2 nodes, 2 ids, cache 2 s, store ttl 1 / 3 s or LRU(1), 3 operations, 4 s")
@@ -94,10 +97,6 @@ def queue_design(c, th):
     design(c, "DNSCheck", "DNSCheck_conc_fresh.cfg", expect_violation="FreshOnSameNode",
              name="two-step Check: of two overlapping queries for one id the older store write may land last "
                   "(freshness is promised for non-overlapping queries only)")
-    if th:
-        design(c, "DNSCheck", "DNSCheck_table_mc_big.cfg", timeout=1800, name="every name up to 7 characters")
-        design(c, "DNSCheck", "DNSCheck_mc_big.cfg", timeout=2400, name="4 operations, 5 s")
-        design(c, "DNSCheck", "DNSCheck_conc_mc_big.cfg", timeout=2400, name="two-step Check, 3 operations, 4 s")
 
 
 def run_remotekv(c, th):
@@ -174,7 +173,7 @@ def run_dnscheck(c, th):
     json.dump(behs, open(inp, "w"))
     out, _ = c.go_harness("internal/dnscheck", "^TestVerifEXT3DNSCheck$", files=["ext3_test.go"],
                           rewrites=c.rewrite_clock([GOCACHE + "/cache.go"]),
-                          env={"VERIF_IN": inp, "VERIF_NRANDOM": 2500 if th else 250})
+                          env={"VERIF_IN": inp, "VERIF_NRANDOM": 1500 if th else 250})
     ev = read_ndjson(out)
     bad = validate(c, "TraceDNSCheck", "TraceDNSCheck.cfg", ev, "dnscheck")
     # free-running goroutines under the race detector
@@ -250,7 +249,20 @@ def run(c: Check):
                      "one Get that hit; distinct by the sequence of actions with their arguments; evaluations = "
                      "events validated")
     c.assumptions += [
-        "TLC, SANY, CommunityModules Json",
+        "the store behind remotekv.Interface with a TTL (Consul session / Redis EXPIRE / backend) is the harness's fake: a map "
+        "whose entries are readable while now < written + ttl on the virtual clock; consulkv, rediskv and backendpb themselves "
+        "are not driven.  The LRU store is the real remotekv.Cache over agdcache.LRU",
+        "virtual clock: time.Now in patrickmn/go-cache (the local cache of dnscheck.RemoteKV) rewritten to VerifNow (fails closed); "
+        "the local cache lifetime of 60 s (defaultCacheExp) is a constant of the code, not documented",
+        "taken from the code where the documentation is silent: a malformed id under a check domain makes Check return an "
+        "error (nothing stored, nothing answered); the bare check domain is answered like a check name and stores nothing; "
+        "question types other than A / AAAA get an empty NOERROR answer; a failing store write does not fail the DNS query; "
+        "a failing store read is 500, a rate-limited one 429; the first configured domain that matches decides",
+        "agd.RequestInfo.Host is the lower-cased question name without the trailing dot (as ratelimitmw computes it); Check is "
+        "called directly, not through the DNS pipeline",
+        "freshness (the body is the LATEST query's record) is claimed for non-overlapping queries handled by the node that "
+        "serves the web request and whose store write succeeded; under overlap only own-id is claimed (see DNSCheck_conc_*.cfg)",
+        "TLC, SANY, CommunityModules Json; Go race detector for the free-running phase",
     ]
 
 
